@@ -39,6 +39,10 @@ type SessionSpec struct {
 	// PausesFirst: at a quiescent point a goroutine parked at a yield point is released before a
 	// gated (slow) step is let go; otherwise slow steps are released first.
 	PausesFirst bool
+	// PluginExits: the plugin process exits when RunATPServer returns (its output ends, its input is closed).
+	PluginExits bool
+	// ExecAtClose: one more Execute, issued concurrently with the final Close.
+	ExecAtClose *ExecSpec
 	// LateClientWrites: every Write of the client returns only at the next quiescent point (after its bytes were
 	// delivered): the plugin may have answered a message before the client knows it is out.
 	LateClientWrites bool
@@ -130,6 +134,12 @@ func RunSession(spec SessionSpec) *SessionResult {
 	go guard("RunATPServer", func() {
 		res.ServerErrors = atp.RunATPServer(ctx, ReadEnd{res.C2S}, WriteEnd{res.S2C}, res.Fixture.Schema)
 		res.ServerDone = true
+		if spec.PluginExits {
+			// the plugin is a process: when its server returns it exits, which ends its output and makes writes to
+			// its input fail
+			_ = res.S2C.CloseWrite()
+			_ = res.C2S.CloseRead()
+		}
 	})
 	go guard("client", func() {
 		cli := atp.NewClient(Duplex{In: res.S2C, Out: res.C2S})
@@ -210,7 +220,31 @@ func RunSession(spec SessionSpec) *SessionResult {
 			wg.Wait()
 		}
 		if !res.CloseReturned {
+			var late sync.WaitGroup
+			if spec.ExecAtClose != nil {
+				// one more call, issued at the moment Close is called (the client is idle by then): it either gets its
+				// result or is refused, and it returns
+				o := &ExecOutcome{Spec: *spec.ExecAtClose}
+				res.Execs = append(res.Execs, o)
+				late.Add(1)
+				go func() {
+					defer late.Done()
+					defer func() {
+						if p := recover(); p != nil {
+							panicMu.Lock()
+							if res.Panic == "" {
+								res.Panic = fmt.Sprintf("Execute(%s): %v", o.Spec.RunID, p)
+								res.PanicStack = string(debug.Stack())
+							}
+							panicMu.Unlock()
+						}
+					}()
+					o.Result = cli.Execute(schema.Input{RunID: o.Spec.RunID, ID: o.Spec.StepID, InputData: o.Spec.Input}, nil, nil)
+					atomic.AddInt32(&o.Returned, 1)
+				}()
+			}
 			res.CloseErr = cli.Close()
+			late.Wait()
 			res.CloseReturned = true
 		}
 		// Like an engine that is done with a plugin, keep the plugin's output flowing until it exits:
